@@ -9,6 +9,13 @@ def repo_commits(prefix):
     return [l.split()[0] for l in out.splitlines() if l.split(" ", 1)[1].startswith(prefix)]
 
 CLAIMS = {
+    "C03": dict(
+        level="exploration",
+        technique="model-based stateful property testing: reference life-cycle state machine (from the handle documentation) run alongside static and streaming Box<dyn Sound> over generated command histories; bounded-exhaustive enumeration of all short command sequences",
+        text="Command histories (pause / resume / resume_at / stop / seek / set_*) with generated tweens and start times, issued at arbitrary callback boundaries relative to the sound's own start time, running fades and natural end, are executed against both sound types next to a reference state machine; reported states must stay within one callback of it, silence and frozen position are exact while not advancing, Stopped is final, the DC gain envelope follows the reference fade, is monotone and ends exactly at silence / unity. All sequences up to depth 3 (thorough: 4) over a 10-letter alphabet x 3 spacings are enumerated exhaustively, longer ones are random. Unloading and slot reuse are checked through a real manager.",
+        note="Sounds are driven directly with MockInfoBuilder (mock clock at end-of-chunk time); the unload sub-check uses AudioManager with the custom backend. Exhaustive only within the stated depth and alphabet.",
+        design="5/C03",
+    ),
     "C09": dict(
         level="exploration",
         technique="differential property-based testing: the same generated audio, settings and command history played as a static sound and as two streaming sounds over scripted decoders (different packet splits / seek behaviour), compared bit-for-bit in lock-step",
